@@ -108,27 +108,22 @@ pub fn gen_project(case: &mut Case, o: &ProjectOpts) -> GenProject {
     // operations: 1..3 files; fragments may live in a library file imported by the others
     let (gd, _) = gen_doc(&mut case.ch, &gs.schema, &o.doc);
     let doc = gd.doc;
-    let frags: MOpDoc = doc.iter().filter(|d| matches!(d, MExecDef::Frag(_))).cloned().collect();
-    let ops: MOpDoc = doc.iter().filter(|d| matches!(d, MExecDef::Op(_))).cloned().collect();
     let mut op_models: Vec<(String, MOpDoc)> = vec![];
-    let split = o.imports && !frags.is_empty() && !ops.is_empty() && case.ch.chance(2, 3);
     let ops_base = join(&layout.root, &layout.ops_dir);
-    if split {
-        let lib_rel_dir = *case.ch.pick(&["", "frags/"]);
-        let lib_name = format!("{lib_rel_dir}lib.graphql");
-        let spell = match (lib_rel_dir, case.ch.below(2)) {
-            ("", 0) => "./lib.graphql".to_string(),
-            ("", _) => "./x/../lib.graphql".to_string(),
-            (_, 0) => "./frags/lib.graphql".to_string(),
-            (_, _) => "./frags/./lib.graphql".to_string(),
-        };
-        let mut main: MOpDoc = vec![MExecDef::Import(MImport { targets: vec![None], path: spell })];
-        main.extend(ops.iter().cloned());
-        op_models.push((join(&ops_base, "main.graphql"), main));
-        op_models.push((join(&ops_base, &lib_name), frags.clone()));
-    } else {
-        op_models.push((join(&ops_base, "main.graphql"), doc.clone()));
+    // fragments are distributed over up to three library files in different directories; every file
+    // imports (by name or wildcard, variously spelled paths) what its own definitions spread, so
+    // import chains, diamonds and cycles between files occur
+    let split = if o.imports { crate::split::split_into_files(&mut case.ch, &doc) } else { crate::split::FileSplit { files: vec![("main.graphql".into(), doc.clone())], max_chain: 0, diamond: false, specific_imports: false, wildcard_imports: false } };
+    for (rel, m) in &split.files {
+        op_models.push((join(&ops_base, rel), m.clone()));
     }
+    if split.max_chain >= 2 {
+        case.label("import-chain>=2");
+    }
+    if split.diamond {
+        case.label("import-diamond");
+    }
+    let split = split.files.len() > 1;
     if case.ch.chance(1, 3) {
         // an extra independent file
         op_models.push((
@@ -153,12 +148,21 @@ pub fn gen_project(case: &mut Case, o: &ProjectOpts) -> GenProject {
     let docs_glob = join(&layout.ops_dir, "**/*.graphql");
     let mut cfg = format!("schema: \"{schema_glob}\"\ndocuments: \"{docs_glob}\"\nextensions:\n  nitrogql:\n    generate:\n      mode: \"{}\"\n      schemaOutput: \"{}\"\n", layout.mode, layout.schema_output);
     let scfg = crate::refexec::ScalarCfg::generate(&mut case.ch, &gs.schema, false);
-    let custom: Vec<&MTypeDef> = gs.schema.of_kind(Kind::Scalar);
-    if !custom.is_empty() {
+    let builtin_defaults = crate::refexec::ScalarCfg::builtin();
+    let mut configured: Vec<String> = gs.schema.of_kind(Kind::Scalar).iter().map(|t| t.name.clone()).collect();
+    for b in ["ID", "String", "Int", "Float", "Boolean"] {
+        // built-in scalars re-mapped by the configuration
+        if crate::refexec::Target::ALL.iter().any(|t| scfg.ts(b, *t) != builtin_defaults.ts(b, *t)) {
+            configured.push(b.to_string());
+        }
+    }
+    if !configured.is_empty() {
         cfg.push_str("      type:\n        scalarTypes:\n");
-        for t in custom {
+        for name in &configured {
+            struct N<'a> { name: &'a String }
+            let t = N { name };
             use crate::refexec::ScalarTs;
-            match &scfg.map[&t.name] {
+            match &scfg.map[t.name] {
                 ScalarTs::Single(s) => cfg.push_str(&format!("          {}: {}\n", t.name, serde_json::to_string(s).unwrap())),
                 ScalarTs::SendReceive { send, receive } => cfg.push_str(&format!(
                     "          {}:\n            send: {}\n            receive: {}\n",
